@@ -47,12 +47,29 @@ pub struct TcpScript {
 #[derive(Clone)]
 pub struct TcpStream {
     pub script: Arc<Mutex<TcpScript>>,
+    /// Set by a scripted listener: released when the last clone of the
+    /// accepted stream is dropped (the connection handler has returned).
+    live: Option<Arc<LiveToken>>,
+}
+
+/// Count of accepted connections whose handler has not returned yet (shim
+/// primitives: waiting for it is visible to the scheduler).
+type Live = Arc<(crate::sync::Mutex<usize>, crate::sync::Condvar)>;
+
+pub struct LiveToken(Live);
+
+impl Drop for LiveToken {
+    fn drop(&mut self) {
+        let (m, c) = &*self.0;
+        *m.lock().unwrap() -= 1;
+        c.notify_all();
+    }
 }
 
 impl TcpStream {
     pub fn scripted(reads: Vec<ReadEv>) -> (TcpStream, Arc<Mutex<TcpScript>>) {
         let script = Arc::new(Mutex::new(TcpScript { reads: reads.into(), ..Default::default() }));
-        (TcpStream { script: script.clone() }, script)
+        (TcpStream { script: script.clone(), live: None }, script)
     }
     pub fn set_nonblocking(&self, _nonblocking: bool) -> io::Result<()> {
         Ok(())
@@ -140,7 +157,7 @@ impl Write for TcpStream {
     }
 }
 
-// ---- listener stub (the accept loop is outside what C30 explores) ----
+// ---- scripted listener ----
 
 pub trait TcpListenerApi: Sized {
     const POLL_ACCEPT_WORKS: bool;
@@ -150,7 +167,27 @@ pub trait TcpListenerApi: Sized {
     fn accept(&self) -> io::Result<(TcpStream, SocketAddr)>;
 }
 
-pub struct TcpListener;
+/// A listener with a scripted queue of incoming connections. Once the queue
+/// is empty, `poll_accept` waits until every accepted connection's handler
+/// has returned, then calls `on_idle` (the harness shuts the thread group
+/// down there, which ends the accept loop) and reports "nothing to accept".
+pub struct TcpListener {
+    pending: Mutex<VecDeque<(TcpStream, SocketAddr)>>,
+    live: Live,
+    on_idle: Mutex<Option<Box<dyn FnMut() + Send>>>,
+    pub accepted: Mutex<usize>,
+}
+
+impl TcpListener {
+    pub fn scripted(conns: Vec<(TcpStream, SocketAddr)>, on_idle: Box<dyn FnMut() + Send>) -> TcpListener {
+        TcpListener {
+            pending: Mutex::new(conns.into()),
+            live: Arc::new((crate::sync::Mutex::new(0), crate::sync::Condvar::new())),
+            on_idle: Mutex::new(Some(on_idle)),
+            accepted: Mutex::new(0),
+        }
+    }
+}
 
 impl TcpListenerApi for TcpListener {
     const POLL_ACCEPT_WORKS: bool = true;
@@ -161,10 +198,34 @@ impl TcpListenerApi for TcpListener {
         Ok(())
     }
     fn poll_accept(&self, _timeout: Duration) -> io::Result<bool> {
+        if !self.pending.lock().unwrap().is_empty() {
+            return Ok(true);
+        }
+        {
+            let (m, c) = &*self.live;
+            let mut n = m.lock().unwrap();
+            while *n > 0 {
+                n = c.wait(n).unwrap();
+            }
+        }
+        let hook = self.on_idle.lock().unwrap().take();
+        if let Some(mut h) = hook {
+            h();
+            *self.on_idle.lock().unwrap() = Some(h);
+        }
         Ok(false)
     }
     fn accept(&self) -> io::Result<(TcpStream, SocketAddr)> {
-        Err(io::Error::new(io::ErrorKind::WouldBlock, "no scripted connections"))
+        let next = self.pending.lock().unwrap().pop_front();
+        match next {
+            Some((mut s, a)) => {
+                *self.live.0.lock().unwrap() += 1;
+                s.live = Some(Arc::new(LiveToken(self.live.clone())));
+                *self.accepted.lock().unwrap() += 1;
+                Ok((s, a))
+            }
+            None => Err(io::Error::new(io::ErrorKind::WouldBlock, "no scripted connections")),
+        }
     }
 }
 
